@@ -283,6 +283,8 @@ def gen_case(rng, base, path=None):
                or any(o['inverse'] and o['type'] != 'bool' for o in spec))
         # without pos_arg whatever t's parser leaves must be task names: only with a well-formed table
         case['pos_arg'] = ill or bool(case.get('abbrev')) or rng.random() < 0.4      # abbreviations may leave leftovers too
+        if any(a[0] in ('sDet', 'lDet') and is_var_word(a[-1]) for a in (case['asgs'] or [])):
+            case['pos_arg'] = True      # a detached `name=value` value is stripped (F-C16c): what follows shifts, leftovers again
         r = rng.random()
         case['ini'] = [e for e in case['ini'] if e[0] != 'unknown_key']
         if r < 0.25 and optlib.toml_file_ok(case):
